@@ -107,7 +107,9 @@ Definition ty_dom (t : aty) : bool :=
       match n with
       | NAppHandle | NWindow | NWebviewWindow => pre_root pre
       | NState => pre_root pre && (has_type_arg args || (is_nil pre && is_none args))
-      | NRequest => pre_ipc pre
+      (* Request not fully qualified must carry its lifetime (Request<'_>): without it the spelling cannot be
+         told from a user type of that name, and the theorems do not speak about it *)
+      | NRequest => pre_ipc pre && (args_life_only args || match pre with [STauri; SIpc] => true | _ => false end)
       | NChannel => pre_ipc pre && (first_is_type args || (is_nil pre && is_none args))
       | NManager => negb (match pre with [STauri] => true | _ => false end)
       | NOption | NOther => true
@@ -120,9 +122,7 @@ Definition cfg_dom (cf : cfg) : bool := match rule_of_str (default_case cf) with
 
 (* ---- classes of recorded defects (narrow; premises of the main theorems, and the run-time matcher) ---- *)
 Definition ty_bare_window (t : aty) : bool := match t with APath [] NWindow None => true | _ => false end.
-Definition ty_short_request (t : aty) : bool := match t with APath [] NRequest _ | APath [SIpc] NRequest _ => true | _ => false end.
 Definition kf_bare_window (c : cmd) : bool := existsb (fun p => ty_bare_window (p_ty p)) (c_params c).
-Definition kf_short_request (c : cmd) : bool := existsb (fun p => ty_short_request (p_ty p)) (c_params c).
 Definition named_by_tauri (p : param) : bool := match spec_kind (p_ty p) with KInjected => false | _ => true end.
 (* the command attribute selects a case that names some key differently from the configured case *)
 Definition kf_macro_case (cf : cfg) (c : cmd) : bool :=
@@ -134,7 +134,7 @@ Definition kf_underscore_name (cf : cfg) (c : cmd) : bool :=
   rule_eqb (configured cf) RCamel &&
   existsb (fun p => named_by_tauri p && negb (has_letter (p_name p))) (c_params c).
 Definition kf_any (cf : cfg) (c : cmd) : bool :=
-  kf_bare_window c || kf_short_request c || kf_macro_case cf c || kf_underscore_name cf c.
+  kf_bare_window c || kf_macro_case cf c || kf_underscore_name cf c.
 
 (* ---- boolean oracle on an observation (list of entries reaching invoke) ---- *)
 Definition kb_eqb (a b : str * bool) : bool := str_eqb (fst a) (fst b) && Bool.eqb (snd a) (snd b).
